@@ -42,22 +42,24 @@ const (
 
 // quota specification of a case (index in the list = quota id `q<i>`).
 type qspec struct {
-	conc   bool
-	max    int64
-	expSec int64  // effective value (the strategy's default when not configured)
-	expSet bool   // request_expiration_sec is written into the quota file
-	parent int    // -1 = root
-	flt    string // own filter: "" (host/*), "mG" / "mP" (method GET / POST only), "py" (url host/y), "h" (header x-c02: 1)
+	conc    bool
+	max     int64
+	expSec  int64  // effective value (the strategy's default when not configured)
+	expSet  bool   // request_expiration_sec is written into the quota file
+	parent  int    // -1 = root
+	grouped bool   // fixed window with group_by_header: x-c02
+	flt     string // own filter: "" (host/*), "mG" / "mP" (method GET / POST only), "py" (url host/y), "h" (header x-c02: 1)
 }
 
 type caseCfg struct {
-	t0     int64 // ns
-	gcSec  int64 // effective value (the strategy's default when not configured)
-	gcSet  bool  // gc_interval_sec is written into the quota files
-	quotas []qspec
-	order  []int // user flow: Limiter chain in this order
-	early  bool  // the flow answers POST requests itself after the limiters admitted them
-	modAt  int   // 0: none; k+1: a request-rewriting processor (TransformAPICall) sits after the first k limiters, on the admitted path
+	t0       int64 // ns
+	gcSec    int64 // effective value (the strategy's default when not configured)
+	gcSet    bool  // gc_interval_sec is written into the quota files
+	quotas   []qspec
+	order    []int // user flow: Limiter chain in this order
+	early    bool  // the flow answers POST requests itself after the limiters admitted them
+	queueTTL int64 // > 0: the first processor of the chain is a Queue (ttl_seconds) instead of a Limiter
+	modAt    int   // 0: none; k+1: a request-rewriting processor (TransformAPICall) sits after the first k limiters, on the admitted path
 }
 
 type engine struct {
@@ -120,6 +122,9 @@ func quotaYAML(c caseCfg) string {
 			}
 		} else {
 			strat = "      fixed_window:\n        max: 1000000\n        interval: 1\n        interval_unit: day\n"
+			if q.grouped {
+				strat += "        group_by_header: x-c02\n"
+			}
 		}
 		if q.parent < 0 {
 			fmt.Fprintf(&roots, "  - id: %s\n%s    strategy:\n%s", qname(i), filterYAML(q.flt, "    ", true), strat)
@@ -168,12 +173,19 @@ func flowYAML(c caseCfg) string {
 		}
 		lim := fmt.Sprintf("lim%d", k)
 		deny := fmt.Sprintf("deny%d", k)
-		fmt.Fprintf(&procs, "  %s:\n    processor: Limiter\n    parameters:\n      - key: quota_id\n        value: %s\n", lim, qname(q))
+		below, above := "below_limit", "above_limit"
+		if k == 0 && c.queueTTL > 0 {
+			// a Queue in front of the quota: the request waits for a slot until the TTL
+			fmt.Fprintf(&procs, "  %s:\n    processor: Queue\n    parameters:\n      - key: quota_id\n        value: %s\n      - key: queue_size\n        value: 32\n      - key: ttl_seconds\n        value: %d\n", lim, qname(q), c.queueTTL)
+			below, above = "allowed", "blocked"
+		} else {
+			fmt.Fprintf(&procs, "  %s:\n    processor: Limiter\n    parameters:\n      - key: quota_id\n        value: %s\n", lim, qname(q))
+		}
 		fmt.Fprintf(&procs, "  %s:\n    processor: GenerateResponse\n    parameters:\n      - key: status\n        value: 429\n", deny)
 		edge(&req, prev, procRef(lim, ""))
-		edge(&req, procRef(lim, "above_limit"), procRef(deny, ""))
+		edge(&req, procRef(lim, above), procRef(deny, ""))
 		edge(&resp, procRef(deny, ""), streamRef("end"))
-		prev = procRef(lim, "below_limit")
+		prev = procRef(lim, below)
 	}
 	if c.modAt == len(c.order)+1 {
 		rewrite()
